@@ -392,7 +392,8 @@ theorem select_eq (s : State) (sel : Option Nat) :
     select s sel = match sel with
       | none => s
       | some i => if s.ref = some i then s
-                  else retargetAll { s with ref := some i, refLmt := s.now } i (List.range s.nC) := rfl
+                  else retargetAll { s with ref := some i, refLmt := s.now, sched := s.sched ++ s.resample } i
+                    (List.range s.nC) := rfl
 
 theorem retargetAll_frame (i : Nat) (cs : List Nat) (s : State) :
     (retargetAll s i cs).shape = s.shape ∧ (retargetAll s i cs).nC = s.nC ∧ (retargetAll s i cs).nT = s.nT ∧
